@@ -3,6 +3,7 @@ package h_gcsim
 import (
 	"context"
 	"fmt"
+	corev1 "k8s.io/api/core/v1"
 	"sort"
 	"strings"
 	"time"
@@ -276,8 +277,20 @@ func (g *gcIPAM) ReleaseIPs(ctx context.Context, in ...ipam.ReleaseOptions) ([]c
 				r.Probe("gc_release_names_no_current_allocation")
 				continue
 			}
+			tag := ""
+			if a.owner.kind == ownPod && a.owner.alive() && !a.owner.sb.pod.node.alive {
+				// The pod's node has been deleted but its API object lingers.  The controller deliberately serves the
+				// final re-validation of such allocations from its informer cache ("We prefer the cache when the hosting
+				// node has been deleted"); if that cache has not yet seen this pod incarnation, the address of an
+				// existing pod is freed.  Tagged so that exactly this cause is a registered finding.
+				pod := a.owner.sb.pod
+				obj, exists, _ := w.podIdx.GetByKey(pod.key())
+				if !exists || string(obj.(*corev1.Pod).UID) != pod.uid {
+					tag = "NODE-GONE/STALE-POD-CACHE: "
+				}
+			}
 			r.Check("released_allocation_is_unjustified", !a.owner.alive(),
-				"the collector issued ReleaseIPs for %s at %s while its owner still justifies it: %s", a.id, secs(now), a.owner.describe())
+				"%sthe collector issued ReleaseIPs for %s at %s while its owner still justifies it: %s", tag, a.id, secs(now), a.owner.describe())
 			if a.owner.kind == ownPod {
 				if !a.suspect {
 					r.HarnessError("dead owner but allocation %s never became suspect", a.id)
